@@ -40,6 +40,7 @@ class StringConcatViolation:
     line_number: int
     column: int
     loop_type: str  # 'for', 'for_in', 'while', 'do'
+    loop_line: int = 0  # line of the innermost enclosing loop (identifies the loop)
 
 
 # thailint: ignore-next-line[srp.violation] Uses small focused methods to reduce complexity
@@ -50,6 +51,7 @@ class TypeScriptStringConcatAnalyzer(TypeScriptBaseAnalyzer):
         """Initialize the analyzer."""
         super().__init__()
         self._string_variables: set[str] = set()
+        self._loop_line = 0
 
     def find_violations(self, root_node: Node) -> list[StringConcatViolation]:
         """Find all string concatenation in loop violations.
@@ -112,8 +114,10 @@ class TypeScriptStringConcatAnalyzer(TypeScriptBaseAnalyzer):
         """
         # Track loop entry
         current_loop = loop_type
+        enclosing_loop_line = self._loop_line
         if node.type in LOOP_NODE_TYPES_TS:
             current_loop = node.type.replace("_statement", "").replace("_", "_")
+            self._loop_line = node.start_point[0] + 1
 
         # Check for augmented assignment (+=)
         if node.type == "augmented_assignment_expression" and current_loop:
@@ -122,6 +126,7 @@ class TypeScriptStringConcatAnalyzer(TypeScriptBaseAnalyzer):
         # Recurse into children
         for child in node.children:
             self._find_concat_in_loops(child, violations, current_loop)
+        self._loop_line = enclosing_loop_line
 
     def _check_augmented_assignment(
         self, node: Node, violations: list[StringConcatViolation], loop_type: str
@@ -185,6 +190,7 @@ class TypeScriptStringConcatAnalyzer(TypeScriptBaseAnalyzer):
                 line_number=node.start_point[0] + 1,
                 column=node.start_point[1],
                 loop_type=loop_type,
+                loop_line=self._loop_line,
             )
         )
 
@@ -225,12 +231,14 @@ class TypeScriptStringConcatAnalyzer(TypeScriptBaseAnalyzer):
         Returns:
             Deduplicated list with one violation per variable
         """
-        seen: set[str] = set()
+        # one per variable AND loop (the same name accumulated in another loop is another finding)
+        seen: set[tuple[str, int]] = set()
         result: list[StringConcatViolation] = []
 
         for v in violations:
-            if v.variable_name not in seen:
-                seen.add(v.variable_name)
+            key = (v.variable_name, v.loop_line)
+            if key not in seen:
+                seen.add(key)
                 result.append(v)
 
         return result
